@@ -165,6 +165,8 @@ class FragGen:
         cons, lcons, obj = [], [], None
         for _ in range(rng.rint(1 if nolcons else 0, 2)):
             e = self.num(rng.rint(1, 2), False)
+            if self.tame and rng.chance(2, 3):     # rows with two or more terms
+                e = ('add', [e, ('v', rng.choice(self.ints + self.conts))] + ([('v', rng.choice(self.ints))] if rng.chance(1, 3) else []))
             c0 = F(rng.rint(-4, 8))
             pat = rng.below(4)
             lb, ub = [(None, c0), (c0, None), (c0, c0 + rng.rint(0, 3)), (c0, c0)][pat]
@@ -398,17 +400,18 @@ def oracle_says(m, grids, rd, budget_s=8.0):
 
 
 def run_refconv(ck, drv, exe, n_models, seed_base, wd, log=None):
-    """compare `convert` with the real converter on n_models generated fragment models x {native, linear}.
+    """compare `convert` with the real converter on generated fragment models x {native, linear} until n_models comparisons that the
+    reference converter does not flag as shortcut are done (at most 5 * n_models models drawn).
     -> stats dict; violations are reported through ck by the caller from stats['violations']"""
     import collections
     st = {'models': 0, 'drawn': 0, 'compared': 0, 'agree': 0, 'shortcut': 0, 'outside': 0, 'ref_refusal': 0, 'real_refusal': 0,
           'refusal_agree': 0, 'disagree': 0, 'classes': collections.Counter(), 'examples': {}, 'violations': [], 'drift': 0,
-          'by_acc': {'native': [0, 0], 'linear': [0, 0]}, 'bad': 0, 'outside_fragment_predicate': 0,
+          'by_acc': {'native': [0, 0], 'linear': [0, 0]}, 'bad': 0, 'outside_fragment_predicate': 0, 'skipped_by_acc': {'native': 0, 'linear': 0}, 'flagged_agree': 0, 'def_kinds': {}, 'with_aux_vars': 0, 'rows_compared': 0,
           # strata: models without logical rows (logical expressions only under ite/count) / models with logical rows
           'by_stratum': {'no-logical-rows': [0, 0], 'logical-rows': [0, 0]}}
     stub = os.path.join(wd, 'rc')
     k = 0
-    while st['models'] < n_models and st['drawn'] < 6 * n_models:
+    while st['compared'] + st['refusal_agree'] < n_models and st['drawn'] < 5 * n_models:
         rng = Rng(seed_base * 100003 + k)
         k += 1
         st['drawn'] += 1
@@ -417,30 +420,38 @@ def run_refconv(ck, drv, exe, n_models, seed_base, wd, log=None):
         stratum = 'logical-rows' if lcons else 'no-logical-rows'
         m, grids, line = build(g, cons, lcons, obj)
         answers = {}
-        skip = None
+        skips = {}
         for accn in ('native', 'linear'):
             c = parse_conv(drv.ask('%s eps=%s acc=%s' % (line, EPS_Q, accn)))
             answers[accn] = c
             if c['kind'] == 'outside':
-                skip = 'outside'
+                skips[accn] = 'outside'
             elif c['kind'] in ('bad', 'bad-op'):
-                skip = 'bad'
-            elif c['kind'] == 'conv' and c['shortcut']:
-                skip = 'shortcut'
+                skips[accn] = 'bad'
+                st['violations'].append(('refconv-driver', 'drv_c01 convert answered %r on: %s acc=%s' % (c.get('what'), line, accn), {}))
             elif c['kind'] == 'conv' and not c['infragment']:
-                skip = 'outside_fragment_predicate'
-        if skip:
-            st[skip] += 1
-            if skip == 'bad':
-                st['violations'].append(('refconv-driver', 'drv_c01 convert answered %r on: %s' % (answers['native'].get('what'), line)))
+                skips[accn] = 'outside_fragment_predicate'
+        for accn, why in skips.items():
+            st[why] += 1
+            st['skipped_by_acc'][accn] += 1
+        if len(skips) == 2:
             continue
         st['models'] += 1
         m.write(stub, names=False)
         if m.perm != list(range(len(m.vars))):
-            st['violations'].append(('refconv-harness', 'nlgen permuted the variables of a fragment model: ' + line))
+            st['violations'].append(('refconv-harness', 'nlgen permuted the variables of a fragment model: ' + line, {}))
             continue
         for accn, acc in (('native', NATIVE), ('linear', LINEAR)):
+            if accn in skips:
+                continue
             c = answers[accn]
+            flagged = c['kind'] == 'conv' and c['shortcut']     # the reference converter says: the real one takes a path I do not mirror
+            if flagged:                                          # compared all the same, reported separately, never a violation
+                st['shortcut'] += 1
+                r = real_side(exe, stub, len(m.vars), acc, [EPS_OPT])
+                okr = r['okA'] and r['okD']
+                st['flagged_agree'] += bool(okr and not compare(c, r))
+                continue
             r = real_side(exe, stub, len(m.vars), acc, [EPS_OPT])
             real_ref = (not r['okA']) or (not r['okD'])
             if c['kind'] == 'refusal' or real_ref:
@@ -453,6 +464,11 @@ def run_refconv(ck, drv, exe, n_models, seed_base, wd, log=None):
                 diffs = ['refusal']
             else:
                 st['compared'] += 1
+                for dd in c['D']:
+                    kd = dd.split(';')[2]
+                    st['def_kinds'][kd] = st['def_kinds'].get(kd, 0) + 1
+                st['with_aux_vars'] += c['M'] > c['N']
+                st['rows_compared'] += len(c['C'])
                 st['by_acc'][accn][1] += 1
                 st['by_stratum'][stratum][1] += 1
                 diffs = compare(c, r)
@@ -476,9 +492,14 @@ def run_refconv(ck, drv, exe, n_models, seed_base, wd, log=None):
             if verdict.startswith('fail'):
                 # the real delivered model is wrong on this input: property failure (the end-to-end stage reports it with its own
                 # minimisation; here it is recorded with the reference converter's expected rows)
-                st['violations'].append(('refconv-property', 'real delivered model fails the exact oracle (%s) and differs from the reference '
-                                         'converter: %s' % (verdict, ex['line'])))
+                st['violations'].append(('refconv-property:' + cls, 'real delivered model fails the exact oracle (%s) and differs from the '
+                                         'reference converter `convert` in %s: %s' % (verdict, '+'.join(diffs), ex['line']), ex))
             else:
+                # the reference converter did not flag the input, the real converter is right by the oracle: the tie between the proved
+                # reference converter and the code is broken on this input (model drift: the model has to be repaired)
                 st['drift'] += 1
+                st['violations'].append(('refconv-differs:' + cls, 'the reference converter `convert` (C01_convert_equiv_*) and the real converter '
+                                         'disagree in %s on an input the reference does not flag as shortcut (oracle on the real delivered '
+                                         'model: %s): %s' % ('+'.join(diffs), verdict, ex['line']), ex))
     st['classes'] = dict(st['classes'])
     return st
